@@ -531,6 +531,46 @@ func c17Run(c *fw.Ctx, b fw.Batch) {
 				bins = append(bins, s)
 			}
 		}
+		// a format that is decided far into the input (Chrome extension: key + signature of
+		// 1.5 MiB and 3 MiB in front of the zip) through reader and file with limits of 1 … 5 MiB
+		for _, hl := range []int{3 << 19, 3 << 20} {
+			var bb bytes.Buffer
+			bb.WriteString("Cr24")
+			bb.Write([]byte{2, 0, 0, 0})
+			bb.Write([]byte{byte(hl), byte(hl >> 8), byte(hl >> 16), byte(hl >> 24), 0, 0, 0, 0})
+			key := make([]byte, hl)
+			for i := range key {
+				key[i] = byte(i*31 + 7)
+			}
+			bb.Write(key)
+			bb.WriteString("PK\x03\x04\x14\x00\x00\x00\x08\x00")
+			bb.Write(make([]byte, 5<<19)) // the file goes on for 2.5 MiB behind the header
+			x := bb.Bytes()
+			for _, entry := range []string{"Detect", "DetectReader", "DetectFile"} {
+				first, firstAt := byte(0), 0
+				for _, L := range []int{1 << 20, 16 + hl - 1, 16 + hl + 4, 2 << 20, 2<<20 + 1, 16 + hl + 4097, 4 << 20, 5<<20 + 3, 0} {
+					var ch lib.Chain
+					okv := true
+					if entry == "Detect" {
+						ch = lib.ChainOf(lib.Detect(x, uint32(L)))
+					} else {
+						ch, okv = c17ViaEntry(dir, x, uint32(L), entry)
+					}
+					if !okv {
+						continue
+					}
+					c.Eval(1)
+					c.Count("late_decided_format_detections", 1)
+					cl := c17Class(ch)
+					if first == 'b' && cl != 'b' && (L == 0 || L > firstAt) {
+						c.Violate("binary-identification-lost", fw.InputKey(x[:64], uint32(L), entry+"/crx-big-header"), fmt.Sprintf("through %s a Chrome extension with a %d-byte key is binary at limit %d and %s at limit %d", entry, hl, firstAt, ch, L), c17Payload{Kind: "huge-limit", In: x[:64], L1: uint32(firstAt), L2: uint32(L)})
+					}
+					if first != 'b' && cl == 'b' && L != 0 {
+						first, firstAt = 'b', L
+					}
+				}
+			}
+		}
 		for i := 0; i < 24 && len(bins) > 0; i++ {
 			x := bins[r.Intn(len(bins))]
 			for _, entry := range []string{"DetectReader", "DetectFile", "DetectFile-fifo"} {
